@@ -4,14 +4,14 @@
 # copied from fuzz/seeds/<target>; -seed=VERIF_SEED (0 is remapped to 1: libFuzzer treats 0 as "random").
 # Prints one JSON line with the statistics; artifacts (crashing inputs) are left in fuzz/artifacts/<target>/.
 set -u
-cd "$(dirname "$0")/../fuzz" || exit 2
+cd "$(dirname "$0")/../harness" || exit 2
 target=$1; runs=$2; maxlen=$3; workers=$4
 export CARGO_NET_OFFLINE=true
-if ! cargo +nightly fuzz build "$target" >/tmp/fuzz_build_$$.log 2>&1; then
+if ! cargo +nightly fuzz build --fuzz-dir ../fuzz "$target" >/tmp/fuzz_build_$$.log 2>&1; then
     cat /tmp/fuzz_build_$$.log; rm -f /tmp/fuzz_build_$$.log
     echo '{"error": "fuzz build failed"}'; exit 2
 fi
-rm -f /tmp/fuzz_build_$$.log
+rm -f /tmp/fuzz_build_$$.log; cd ../fuzz
 bin=target/x86_64-unknown-linux-gnu/release/$target
 work=corpus-work/$target; art=artifacts/$target
 rm -rf "$work" "$art"; mkdir -p "$work" "$art" logs
